@@ -71,6 +71,9 @@ class Contract:
         self.loops = {k: (v if isinstance(v, LoopSpec) else LoopSpec(**v)) for k, v in (loops or {}).items()}
         self.ghost_entry = [ast.parse(s).body for s in ghost_entry]
         self.ghost_exit = [ast.parse(s).body for s in ghost_exit]
+        self.ghost_entry_src = list(ghost_entry)
+        self.ghost_exit_src = list(ghost_exit)
+        self.ghost_after_src = {k: ([v] if isinstance(v, str) else list(v)) for k, v in (ghost_after or {}).items()}
         self.external = external
         self.locals = {k: parse_type(v) for k, v in (locals or {}).items()}
         self.doc = doc
